@@ -11,14 +11,16 @@ RULE = ("cases = (kernel tree, data, values, mu, jitter, query set); per case th
         "inputs with inducing points = training cells and compared through their exact jitter-proportional difference "
         "formulas (predictions, weights, posterior covariance, gradients); compute_L of 'fixed' with landmarks = cells vs "
         "'full'; rank-reduced factors vs the discarded eigenvalue mass; plus DensityEstimator('fixed', n_landmarks >= n) vs "
-        "'full' fits; non-trivial = predictions differ from mu")
+        "'full' fits; plus FunctionEstimator('fixed', landmarks = the cells in any order, sigma = per-cell vector) vs 'full' "
+        "through the exact difference (K~ + K D^-1 K)(w_full - w) = jitter w_full (always-run regression cases + seeded); non-trivial = predictions differ from mu")
 PARTIAL = ["DensityEstimator 'fixed' vs 'full' fitted values are compared at optimiser tolerance only (L-BFGS-B convergence is "
            "outside the model)"]
 ASSUMPTIONS = ["numpy references for the difference formulas"]
 CLAIM = {
     "text": "Lean theorems over R: with inducing points = cells the Cholesky-latent weights solve the same equation (K + jitter I) w = "
             "y - mu as the full GP; the DTC weights w satisfy (jitter K~ + K^2)(w_full - w) = jitter^2 w_full (explicit O(jitter^2) "
-            "relation); the 'fixed' factor has (K + jitter I) - L L^T = 2 jitter I - jitter^2 (K + jitter I)^-1, of norm <= 2 jitter; the posterior covariance "
+            "relation), and with a per-cell noise vector D = diag(max(sigma_i^2, jitter)) the DTC weights satisfy (K~ + K D^-1 K)(w_full - "
+            "w) = jitter w_full (dtc_percell_vs_full); the 'fixed' factor has (K + jitter I) - L L^T = 2 jitter I - jitter^2 (K + jitter I)^-1, of norm <= 2 jitter; the posterior covariance "
             "expression is literally the same function of (basis, L) in all three families; for eigen-truncations the trace of "
             "the approximation error equals the discarded eigenvalue mass and vanishes for a full-rank request. Tied to /repo by "
             "building the three predictor families and the compute_L factors on identical inputs and checking the exact "
@@ -36,7 +38,101 @@ def run_case(ctx, res, p):
         return case_factors(ctx, res, p)
     if p["op"] == "estimators":
         return case_estimators(ctx, res, p)
+    if p["op"] == "percell":
+        return case_percell(ctx, res, p)
     raise ValueError(p["op"])
+
+
+def case_percell(ctx, res, p):
+    """FunctionEstimator(gp_type='fixed', landmarks = the cells in another order, sigma = per-cell vector) against
+    FunctionEstimator(gp_type='full', sigma = the same vector): the inducing-point model with the cells as inducing points is
+    the full model up to O(jitter) - exactly (K~ + K D^-1 K)(w_full - w) = jitter * w_full, D = diag(max(sigma_i^2, jitter)).
+    (Fixed defect 20d7957: the vector used to be attached to the landmarks, deviation 1e-1 .. 5e-1, order dependent.)"""
+    m = mellon()
+    SIG = "C09:fixed-per-cell-sigma"
+    tree = totuple(p["tree"])
+    cov = cov_to_mellon(tree)
+    X, Y, Xq, sg = (np.asarray(p[k], float) for k in ("X", "Y", "Xq", "sigma"))
+    perm = np.asarray(p["perm"], int)
+    mu, j = float(p["mu"]), float(p["jitter"])
+    n = X.shape[0]
+    res.count("op=percell")
+    res.count("percell:" + ("identity-order" if np.array_equal(perm, np.arange(n)) else "permuted"))
+    canon = repr([(k, v.tobytes() if isinstance(v, np.ndarray) else v) for k, v in sorted(p.items())])
+    res.case(canon, True, {"op": "percell", "tree": cov_str(tree), "X": list(X.shape), "jitter": j})
+    kw = dict(cov_func=cov, jitter=j, mu=mu, sigma=sg)
+    try:
+        ef = m.FunctionEstimator(gp_type="full", n_landmarks=0, **kw)
+        a = np.asarray(ef.fit_predict(X, Y, Xq), float)
+        ex = m.FunctionEstimator(gp_type="fixed", landmarks=X[perm], **kw)
+        b = np.asarray(ex.fit_predict(X, Y, Xq), float)
+    except Exception as e:
+        res.oracle_fail(f"FunctionEstimator with a per-cell sigma vector ('full' / 'fixed' with the cells as landmarks) raised "
+                        f"{exc_class(e)}: {str(e)[:100]}", p, signature=SIG)
+        return
+    if type(ex.predict).__name__ != "LandmarksConditional":
+        res.oracle_fail("'fixed' FunctionEstimator did not build the Landmarks predictor", p, signature="C09:fixed-class")
+    D = np.where(sg ** 2 < j, j, sg ** 2)
+    K, Kq = cu.kernel_np(cov, X, X), cu.kernel_np(cov, Xq, X)
+    r = Y - mu
+    wf = np.linalg.solve(K + np.diag(D), r)
+    M = K + j * np.eye(n) + (K / D[None, :]) @ K
+    gapw = np.linalg.solve(M, j * wf)                       # = w_full - w_dtc (cells' order)
+    scale = max(float(np.max(np.abs(a - mu))), 1e-300)
+    cond = max(np.linalg.cond(M), np.linalg.cond(K + j * np.eye(n)), np.linalg.cond(K + np.diag(D)))
+    lo_, hi_ = co.interval(tree, X, X)
+    wK = float(np.max(hi_ - lo_))
+    tol = 1e3 * EPS * cond + 50 * wK * cond * n + 1e-10
+    sharp = tol < 1e-3
+    # exact difference formula
+    dv = float(np.max(np.abs((a - b) - Kq @ gapw))) / scale
+    res.dev("percell_fixed_vs_full_formula_over_tol", dv / tol)
+    res.dev("percell_fixed_vs_full_rel", float(np.max(np.abs(a - b))) / scale)
+    if sharp and dv > tol:
+        res.oracle_fail("'fixed' with the cells as landmarks and a per-cell sigma vector: the prediction differs from the full "
+                        "model's by other than K_q (K~ + K D^-1 K)^-1 jitter w_full", p,
+                        detail={"rel": dv, "tol": float(tol), "rel_diff_to_full": float(np.max(np.abs(a - b))) / scale},
+                        signature=SIG)
+    # O(jitter) bound: |K_q gap| <= jitter * |K_q| |M^-1| |w_full|
+    bound = j * float(np.max(np.sum(np.abs(Kq), axis=1))) * float(np.linalg.norm(np.linalg.inv(M), np.inf)) * \
+        float(np.max(np.abs(wf))) / scale
+    if float(np.max(np.abs(a - b))) / scale > bound * (1 + 1e-6) + tol:
+        res.oracle_fail("'fixed' (cells as landmarks, per-cell sigma) vs 'full' differ by more than the O(jitter) bound", p,
+                        detail={"rel": float(np.max(np.abs(a - b))) / scale, "bound": bound}, signature=SIG)
+    # the order of the landmarks is irrelevant
+    if not np.array_equal(perm, np.arange(n)):
+        e0 = m.FunctionEstimator(gp_type="fixed", landmarks=X.copy(), **kw)
+        b0 = np.asarray(e0.fit_predict(X, Y, Xq), float)
+        dvo = float(np.max(np.abs(b0 - b))) / scale
+        res.dev("percell_landmark_order_over_tol", dvo / tol)
+        if sharp and dvo > tol:
+            res.oracle_fail("'fixed' with a per-cell sigma vector depends on the order of the landmarks", p,
+                            detail={"rel": dvo, "tol": float(tol)}, signature=SIG)
+    drv = ctx["driver"]
+    if drv is not None:
+        mlm = cu.model_lm(drv, tree, X, X[perm], Y, mu, sg, j, None, False, False, Xq)
+        if mlm["status"] != "ok":
+            res.corr_fail(f"model refuses the DTC family with a per-cell sigma: {mlm['status']}", p)
+        else:
+            dvm = float(np.max(np.abs(mlm["mean"].reshape(b.shape) - b))) / scale
+            res.dev("model_percell_dtc_over_tol", dvm / tol)
+            if sharp and dvm > tol:
+                res.corr_fail("model and implementation differ for the DTC family with a per-cell sigma", p,
+                              detail={"rel": dvm})
+
+
+def percell_payloads():
+    """Always-run regression cases of fixed defect 20d7957."""
+    rng = np.random.default_rng(20260908)
+    out = []
+    for d, kind, perm in ((2, "M52", False), (2, "EQ", True), (1, "M32", True)):
+        n = 8
+        X = rng.uniform(-1.5, 1.5, size=(n, d))
+        out.append({"op": "percell", "tree": (kind, 1.2, ("AN",)), "X": X,
+                    "Y": np.sin(2 * X[:, 0]) + 0.3 * rng.normal(size=n), "Xq": rng.uniform(-1.5, 1.5, size=(4, d)),
+                    "mu": 0.2, "jitter": 1e-6, "sigma": np.exp(rng.uniform(np.log(0.05), np.log(0.8), size=n)),
+                    "perm": (rng.permutation(n) if perm else np.arange(n))})
+    return out
 
 
 def case_families(ctx, res, p):
@@ -251,6 +347,8 @@ def run(ctx, res):
     budget = ctx["budget"] or (60 if quick else 480)
     t_end = time.time() + budget
     mellon()
+    for p in percell_payloads():
+        run_case(ctx, res, p)
     i = 0
     while time.time() < t_end:
         n, d = 8, [1, 3][rng.integers(2)]
@@ -263,6 +361,10 @@ def run(ctx, res):
         if i % 3 == 0:
             run_case(ctx, res, {"op": "factors", "tree": tree, "X": X, "jitter": j,
                                 "ranks": [1, 3, 0.9, 0.999, n - 1]})
+        elif i % 10 == 4:
+            run_case(ctx, res, {"op": "percell", "tree": tree, "X": X, "Y": rng.normal(size=n) * 1.5 + mu, "Xq": Xq,
+                                "mu": mu, "jitter": j, "sigma": np.exp(rng.uniform(np.log(0.05), 0.0, size=n)),
+                                "perm": rng.permutation(n) if rng.random() < 0.7 else np.arange(n)})
         elif i % 10 == 7:
             X2, _ = gen_points(rng, 24, 2, kind="plain", scale=1.0)
             run_case(ctx, res, {"op": "estimators", "X": X2, "Xq": gen_points(rng, 4, 2, kind="plain")[0],
